@@ -176,6 +176,7 @@ initSetIteration(SetIteration *i, PyObject *s, int useValues)
         /* Error detection on types is moved to the next() call. */
         /* This is slower, but very convenient.  */
         PyObject* list = PySequence_List(s);
+        VERIF_PROBE(25);
         UNLESS(list) return -1;
         if (PyList_Sort(list) == -1) {
             Py_DECREF(list);
@@ -603,6 +604,7 @@ multiunion_m(PyObject *ignored, PyObject *args)
   */
   if (result->len > 0) {
     size_t newlen;          /* number of elements in final result set */
+    if (result->len > 800) { VERIF_PROBE(21); } else { VERIF_PROBE(22); }
     newlen = sort_int_nodups(result->keys, (size_t)result->len);
     result->len = (int)newlen;
   }
